@@ -14,9 +14,9 @@ from vlib import Rng, fhex, unhex
 
 PID = "C16"
 NAMESPACE = "Simu.C16"
-THEOREMS = ["roundtrip", "roundtrip_text_sections", "counts_consistent", "renumbering_is_identity_when_compact",
-            "rebase_compact", "rebase_preserves_geometry", "rebase_idempotent", "reader_renumbering_order_preserving",
-            "no_type_reads_as_one", "constants_pinned"]
+THEOREMS = ["roundtrip", "read_fileToks", "counts_consistent", "renumbering_is_identity_when_compact", "rebase_compact",
+            "rebase_idempotent", "rebase_order_preserving", "rebase_preserves_geometry", "reader_renumbering_order_preserving",
+            "no_type_reads_as_one", "constants_pinned", "exValid"]
 GEN = ["VtkConsts"]
 HARNESS = os.path.join(vlib.VERIF, "harness", "h_vtk.cpp")
 
